@@ -16,6 +16,11 @@ Decided:
               place the last artifact so that it ends exactly at footer_offset, so a `>=` / `<` variant rejects a
               valid file: the reopened handle then lacks an index the live handle has. Comparisons inside closures
               are resolved through their call sites.
+  MPT-C28e    the persisted indexes survive a crash recovery: open_locked loads every index before the WAL replay, which
+              rebuilds and re-persists them from the in-memory state (shared with C14's MPT-C14d).
+  FLOW-C28f   rebuild_indexes truncates the file no lower than header.footer_offset: everything between the payload end
+              and the footer that it does not rewrite itself (the sketch track, replay segments) stays on disk; the
+              set_len argument derives from max(header.footer_offset, payload end).
 Not decided: equality of query results before/after reopen (values); Tantivy's own persistence (external crate)."""
 from . import lib
 from .facts import Place, op_place
@@ -95,12 +100,36 @@ def range_checks(ctx, F):
     ctx.floor('AGREE-C28d', n, 4, 'range-end vs limit comparisons')
 
 
+def _truncate(ctx, F, rule='FLOW-C28f'):
+    ctx.rule(rule, 'rebuild_indexes: set_len argument = max(header.footer_offset, payload end) - never below the footer')
+    rb = ctx.need(rule, 'Memvid::rebuild_indexes')
+    if rb is None:
+        return
+    ctx.touch(rb, len(rb.blocks))
+    sls = rb.calls_to('File::set_len')
+    rw = rb.calls_to('Memvid::rewrite_toc_footer')
+    cuts = [c for c in sls if not rw or not lib.call_success_dominates(rb, rw[0], c.bb)]
+    ctx.evaluations += len(sls)
+    for c in cuts:
+        sl = lib.slice_back(rb, c.args[1:2], through_calls=True, at=(c.bb, None))
+        if sl.has_field('Header', 'footer_offset') and any(x.name == 'max' for x in sl.calls):
+            ctx.ok(rule, rb, 'truncation length = max(header.footer_offset, ...)', line=c.line)
+        elif sl.has_field('Header', 'footer_offset') and not (sl.calls_matching('Memvid::payload_region_end') or sl.has_field('Memvid', 'cached_payload_end')):
+            ctx.ok(rule, rb, 'file length set from header.footer_offset', line=c.line)
+        else:
+            ctx.bad(rule, rb, 'rebuild_indexes can truncate the file below header.footer_offset (set_len from the payload end): tracks it does not rewrite itself (sketch track, replay '
+                    'segment) lie in that range and their manifests stay in the TOC, so the next open reads zeros there', line=c.line, sink='File::set_len', detail='truncate-below-footer')
+
+
 def run(ctx):
     ctx.rule('GUARD-C28a', 'incremental Tantivy arm only on !tantivy_dirty; dirty edge rebuilds the engine')
     ctx.rule('AGREE-C28b', 'in-memory index installed at commit == decode(bytes persisted); reopen decodes the same bytes with the same decoder')
     ctx.rule('MPT-C28c', 'instant index marks tantivy_dirty')
     F = ctx.facts()
     range_checks(ctx, F)
+    from . import c14
+    c14._open_order(ctx, F, rule='MPT-C28e')
+    _truncate(ctx, F)
     rb = ctx.need('GUARD-C28a', 'Memvid::rebuild_indexes')
     if rb is not None:
         ctx.touch(rb, len(rb.blocks))
